@@ -19,6 +19,7 @@ SEARCH = {
     "C16": [["config"]],
     "C08": [["c08", "4"]],
     "C10": [["c10", "3"]],
+    "C09": [["c09", "3"]],
 }
 THOROUGH = {
     "C01": [["diff", "C01", "3", "4"]],
@@ -30,6 +31,7 @@ THOROUGH = {
     "C16": [["config"]],
     "C08": [["c08", "6"]],
     "C10": [["c10", "4"]],
+    "C09": [["c09", "5"]],
 }
 
 
